@@ -1,16 +1,19 @@
 #!/usr/bin/env python3
-"""mkcoverage.py <Cxx> [<Cxx> ...]: run the quick check of each property on the UNCHANGED tree with seeds 1, 2, 3, 7, 11
-and write checks/coverage/<Cxx>.txt: the case-class groups (class strings with every digit run replaced by '#') that
-occur at least 3 times in EVERY one of the five runs.  The quick check then requires them (obligation "coverage").
-Classes that depend on the draw are thereby left out; directed families and frequent random families stay."""
+"""mkcoverage.py <Cxx> [<Cxx> ...]: run the quick check of each property on the UNCHANGED tree with eight seeds and write
+checks/coverage/<Cxx>.txt: the case-class groups (class strings with every digit run replaced by '#') that occur at
+least 25 times in EVERY one of the eight runs.  The quick check then requires them (obligation "coverage").
+A group whose count depends on the draw and averages 25 or more is absent from a run with probability below e^-25;
+directed families have the same count in every run.  Families that are drawn rarely are left out on purpose: the
+obligation is about whole families vanishing, not about sampling."""
 import json, os, re, subprocess, sys, collections
 V = os.path.dirname(os.path.dirname(os.path.abspath(__file__)))
-SEEDS = [1, 2, 3, 7, 11]
+SEEDS = [1, 2, 3, 5, 7, 11, 13, 17]
+MIN = 25
 os.makedirs(f'{V}/checks/coverage', exist_ok=True)
 for pid in sys.argv[1:]:
     cov = f'{V}/checks/coverage/{pid}.txt'
     if os.path.exists(cov):
-        os.rename(cov, cov + '.old')
+        os.remove(cov)  # the runs below must not be judged by an old manifest
     groups = None
     ok = True
     for sd in SEEDS:
@@ -21,16 +24,12 @@ for pid in sys.argv[1:]:
         c = collections.Counter()
         for k, n in meta['classes'].items():
             c[re.sub(r'\d+', '#', k)] += n
-        g = {k for k, n in c.items() if n >= 3 and k}
+        g = {k for k, n in c.items() if n >= MIN and k}
         groups = g if groups is None else groups & g
     if not ok:
-        if os.path.exists(cov + '.old'):
-            os.rename(cov + '.old', cov)
         continue
     with open(cov, 'w') as f:
-        f.write(f'# {pid}: case-class groups present (>= 3 cases) in every quick run with seeds {SEEDS} on the unchanged tree\n')
+        f.write(f'# {pid}: case-class groups with at least {MIN} cases in every quick run with seeds {SEEDS} on the unchanged tree\n')
         for k in sorted(groups):
             f.write(k + '\n')
-    if os.path.exists(cov + '.old'):
-        os.remove(cov + '.old')
-    print(pid, len(groups), 'groups')
+    print(pid, len(groups), 'groups'); sys.stdout.flush()
